@@ -128,7 +128,7 @@ Ltac hs_unfold :=
   unfold Hs in *;
   cbn [globals locals set_output set_active set_globals set_locals set_global_tasks set_local_tasks set_errors set_path_stack set_curr_name
        push_error push_error_in errors output active global_tasks local_tasks path_stack curr_name] in *.
-Ltac hs_finish := hs_unfold; eauto 8 using HF_refl, HF_trans.
+Ltac hs_finish := hs_unfold; eauto 5 using HF_refl, HF_trans.
 
 Lemma HF_locals S ps cn g t t' gt lt : tle t t' -> HF S ps cn g (Some t) gt lt ps cn g (Some t') gt lt.
 Proof. intros H. repeat split; auto using hand_refl, text_refl, otext_refl. Qed.
